@@ -16,9 +16,11 @@ os.environ.setdefault(GUARD, "1")
 if VERIF not in sys.path:
     sys.path.insert(0, VERIF)
 sys.path.insert(0, FLODYM_SRC)
-_deps = os.path.join(VERIF, ".deps")
-if os.path.isdir(_deps) and _deps not in sys.path:
-    sys.path.append(_deps)
+for _deps in (os.path.join(VERIF, ".deps"), "/verif/.deps"):
+    if os.path.isdir(_deps):
+        if _deps not in sys.path:
+            sys.path.append(_deps)
+        break
 
 
 class HarnessError(Exception):
